@@ -41,6 +41,14 @@ def tree_hash(repo=REPO):
         _sha_file(h, p)
     if os.path.isfile(DRIVER):
         _sha_file(h, DRIVER)
+    if not os.environ.get('VERIF_NO_CANON'):
+        # the cached document is the name-canonicalised one (canon.py): key the cache by the resolver and its reference too
+        from . import canon
+        for p in (canon.REF, canon.__file__):
+            if os.path.isfile(p):
+                _sha_file(h, p)
+    else:
+        h.update(b'raw')
     return h.hexdigest()[:20]
 
 
@@ -108,6 +116,12 @@ def extract(config='dev', repo=REPO, verbose=False):
             doc = json.load(f)
         if doc.get('nonce') != nonce:
             raise SystemExit('fact extraction failed: stale fact file')
+        if not os.environ.get('VERIF_NO_CANON'):
+            from . import canon
+            doc, notes = canon.resolve(doc)
+            doc['canon_notes'] = notes
+        with open(out, 'w') as f:
+            json.dump(doc, f)
         os.replace(out, cached)
         # keep the cache small: drop fact files of other tree states (keep the 6 most recent)
         olds = sorted((e for e in os.listdir(CACHE) if e.startswith('facts-') and e.endswith('.json')),
